@@ -73,7 +73,7 @@ def to_octopus(
     # Load up to ntime times at a time to optimise memory and speed
     i0 = 0
     i1 = ntime
-    while i1 <= dset_stacked.time.size:
+    while i0 < dset_stacked.time.size:
         dset = dset_stacked.isel(time=slice(i0, i1)).load()
         i0 = i1
         i1 += ntime
